@@ -34,6 +34,44 @@ HARNESS_TO_CLASSES = {
 }
 
 
+# Classes of the UNCHANGED tree whose round trip fails, reported to the lead and waiting for the decision between a fix
+# and a known finding.  Until then they are printed as FINDING-CANDIDATE lines (stable key roundtrip:<Class>:<what>,
+# replay file written) and do not fail the check.  An entry is dropped from here as soon as known_findings.json has a
+# matching entry (then the ordinary KNOWN-FINDING path takes over) or the class is fixed.
+PENDING_DECISION = {
+    "RVEA": ("roundtrip:RVEA:state-not-streamed",
+             "RVEA declares `template<class Archive> void serialize(Archive&)` (ONE parameter) instead of read()/write(): Boost never calls it, "
+             "it hides ISerializable::serialize so that `archive << rvea` does not compile, and through an ISerializable&/AbstractOptimizer& "
+             "reference the empty default read()/write() run: nothing is written, the restored optimizer keeps the fresh object's state"),
+    "MOEAD": ("roundtrip:MOEAD:state-not-streamed",
+              "MOEAD: same as RVEA (one-parameter serialize(Archive&) that nothing calls; empty inherited read()/write())"),
+    "VDCMA": ("roundtrip:VDCMA:state-not-streamed",
+              "VDCMA (an AbstractSingleObjectiveOptimizer, hence ISerializable) defines neither read() nor write(): `archive << vdcma` compiles, "
+              "writes nothing, and the restored optimizer keeps the fresh object's mean/sigma/paths"),
+}
+# optimizers (descendants of AbstractOptimizer) that the translator finds WITHOUT any read()/write() of their own or of a
+# base other than ISerializable and that have no harness case (abstract, or header does not compile)
+PENDING_UNSTREAMED_OPTIMIZERS = {
+    "LMCMA": "roundtrip:LMCMA:state-not-streamed",                 # header does not compile (LMCMA.h:370 unqualified gauss), no harness case
+    "TrustRegionNewton": "roundtrip:TrustRegionNewton:state-not-streamed",   # abstract in this tree (cannot be instantiated)
+}
+
+
+def unstreamed_optimizers(classes, texts):
+    """concrete-looking descendants of AbstractOptimizer with own data members whose effective write() is
+    ISerializable's empty default"""
+    out = []
+    for name, cs in sorted(classes.items()):
+        c = TS.resolve(classes, name)
+        anc = [a.name for a in TS.ancestors(classes, c)]
+        if "AbstractOptimizer" not in anc or name.startswith("Abstract") or not c.members: continue
+        f, owner, _ = TS.effective_func(classes, texts, c, "write")
+        g, gowner, _ = TS.effective_func(classes, texts, c, "read")
+        if (owner is None or owner.name == "ISerializable") and (gowner is None or gowner.name == "ISerializable"):
+            out.append(name)
+    return out
+
+
 def gen_dir():
     if os.path.realpath(REPO) == os.path.realpath("/repo"):
         return os.path.join(COQ, "gen"), os.path.join(COQ, "gen", "c18")
@@ -149,6 +187,49 @@ def explain(r, failed):
     return msgs
 
 
+def run_selftest(ck, tmpd):
+    """translator self-test on the synthetic classes of harness/c18_selftest/*.cpp (never linked; source-level
+    translation + coqc of the generated obligations + clang AST dump).  Every file states what must come out:
+        // EXPECT <Class>: ok                      all obligations of the class hold
+        // EXPECT <Class>: cover m_x[, rw m_y ...]  exactly these obligations fail, naming exactly these members
+    This pins the translator's behaviour on helper delegation: a read()/write() pair that delegates to one helper is
+    translated by inlining the helper, and a member lost in such a refactoring is the ONLY thing reported."""
+    sdir = os.path.join(ROOT, "harness", "c18_selftest")
+    files = sorted(os.path.join(sdir, f) for f in os.listdir(sdir) if f.endswith(".cpp")) if os.path.isdir(sdir) else []
+    expect = {}; where = {}
+    for f in files:
+        for m in re.finditer(r"^// EXPECT (\w+):\s*(.+)$", open(f).read(), re.M):
+            expect[m.group(1)] = sorted(x.strip() for x in m.group(2).split(",")) if m.group(2).strip() != "ok" else []
+            where[m.group(1)] = os.path.basename(f)
+    saved = (TS.REPO_FOR_REL[0], TS.ALL_CLASSES[0], TS.ALL_TEXTS[0])
+    try:
+        results, _ = TS.translate(sdir, files=files + [os.path.join(sdir, "c18_st_common.h")])
+    finally:
+        TS.REPO_FOR_REL[0], TS.ALL_CLASSES[0], TS.ALL_TEXTS[0] = saved
+    results = [r for r in results if r["name"] in expect]
+    groot = os.path.join(tmpd, "selftest_gen"); gdir = os.path.join(groot, "c18"); os.makedirs(gdir, exist_ok=True)
+    for r in results:
+        write_if_changed(os.path.join(gdir, "C18_%s.v" % TS.ident(r["uid"])), r["coq"])
+    with ThreadPoolExecutor(max_workers=4) as ex:
+        outs = list(ex.map(lambda r: coqc_class(groot, os.path.join(gdir, "C18_%s.v" % TS.ident(r["uid"]))), results))
+    rep = []
+    got = {}
+    for r, (ok, failed, lg) in zip(results, outs):
+        if failed == ["<coqc error>"]:
+            got[r["name"]] = ["coqc " + lg[-200:]]; continue
+        g = []
+        for kind, msg, member in explain(r, failed):
+            g.append(kind if kind in ("translator", "stale") else "%s %s" % (kind, member))
+        got[r["name"]] = sorted(set(g))
+    for c in sorted(expect):
+        if c not in got: rep.append((c, False, "class not found by the translator (%s)" % where[c])); continue
+        rep.append((c, got[c] == expect[c], "expected failing obligations %s, got %s" % (expect[c] or "none", got[c] or "none")))
+    # independent reading: clang's AST of the same snippets must give the same member sequences (helpers followed)
+    tus = {c: where[c] for c in expect if "translator" not in expect[c]}
+    ast = TS.ast_crosscheck(sdir, results, repo_includes() + ["-I" + sdir], os.path.join(tmpd, "selftest_ast"), jobs=4, tus=tus)
+    return rep, ast, results
+
+
 def read_sources():
     p = os.path.join(ROOT, "harness", "c18_sources.txt")
     if not os.path.exists(p): return []
@@ -190,6 +271,21 @@ def main():
                       "the fresh instance is legitimately constructed with the same user-supplied structure (KernelExpansion kernel, ConcatenatedModel layers, optimizer init on the same objective)"]
     ck.proofs()
     tmpd = os.path.join(BUILD, "tmp", PID); os.makedirs(tmpd, exist_ok=True)
+
+    # ---- translator self-test (synthetic classes, helper delegation)
+    st_rep, st_ast, st_res = run_selftest(ck, tmpd)
+    bad_st = [(c, m) for c, ok, m in st_rep if not ok]
+    ck.oblige("translator self-test: %d synthetic classes (helper delegation followed; a dropped member is the only thing reported)" % len(st_rep),
+              bool(st_rep) and not bad_st, "; ".join("%s: %s" % x for x in bad_st)[:1500])
+    bad_ast = [(c, m) for c, ok, m in st_ast if ok is False]
+    ck.oblige("translator self-test: clang AST (helper calls followed) agrees on %d synthetic classes" % sum(1 for _, ok, _ in st_ast if ok),
+              not bad_ast, "; ".join("%s: %s" % x for x in bad_ast)[:1500])
+    ck.notes["selftest"] = {"classes": {c: m for c, ok, m in st_rep}, "ast_agree": [c for c, ok, _ in st_ast if ok],
+                            "ast_skipped": [(c, m) for c, ok, m in st_ast if ok is None]}
+    if os.environ.get("C18_SELFTEST_ONLY"):
+        for c, ok, m in st_rep: log("[C18] selftest %-12s %s  %s" % (c, "ok  " if ok else "FAIL", m))
+        for c, ok, m in st_ast: log("[C18] selftest-ast %-12s %s  %s" % (c, {True: "agree", False: "DISAGREE", None: "skipped"}[ok], m))
+        sys.exit(0 if (st_rep and not bad_st and not bad_ast) else 1)     # partial run: no evidence file is written
 
     # ---- tie: translator obligations
     results, status = run_translator(ck)
@@ -254,6 +350,45 @@ def main():
     bad = [h for h in hres if h["status"] not in ("OK",)]
     skipped = [h for h in bad if h["status"] == "SKIP"]
     bad = [h for h in bad if h["status"] != "SKIP"]
+    # ---- finding candidates waiting for the lead's decision
+    cand = []
+    for pcls, (pkey, pwhy) in sorted(PENDING_DECISION.items()):
+        hs = [h for h in bad if re.sub(r"<.*$", "", h["cls"]) == pcls]
+        ran = [h for h in hres if re.sub(r"<.*$", "", h["cls"]) == pcls]
+        if not hs:
+            if ran: log("[C18] note: PENDING_DECISION entry %s no longer fails (%d cases OK): remove it" % (pcls, len(ran)))
+            continue
+        bad = [h for h in bad if h not in hs]
+        seen = set(); pick = []
+        for h in hs:
+            if (h["var"], h["fmt"]) not in seen and len(pick) < 8:
+                seen.add((h["var"], h["fmt"])); pick.append(h)
+        cf = ck.write_replay("candidate_%s.txt" % pcls, "\n".join(x["case"] for x in pick) + "\n")
+        rp = {"key": pkey, "case_file": cf, "cases": [x["case"] for x in pick],
+              "observed": [x["case"] + " " + x["status"] + " " + x["rest"] for x in pick], "failing_cases_total": len(hs),
+              "expected": "restored object identical to the original on every observable (exact comparison)", "why": pwhy,
+              "replay_cmd": "python3 tools/c18.py --replay %s" % cf}
+        if ck.match_known(pkey) is not None:
+            ck.violation(pkey, rp, pwhy)          # registered: ordinary known-finding path
+        else:
+            ck.write_replay("candidate_%s.json" % pcls, rp)
+            print("FINDING-CANDIDATE property=%s key=%s replay=%s failing=%d/%d e.g. %s %s %s" % (
+                PID, pkey, cf, len(hs), len(ran), pick[0]["case"], pick[0]["status"], pick[0]["rest"][:120]), flush=True)
+            log("  -> " + pwhy)
+        cand.append({"key": pkey, "class": pcls, "failing": len(hs), "of": len(ran), "example": pick[0]["case"] + " " + pick[0]["status"] + " " + pick[0]["rest"][:200]})
+    # optimizers without any read()/write(): every one must be accounted for (harness case above, or listed)
+    uns = unstreamed_optimizers(TS.ALL_CLASSES[0], TS.ALL_TEXTS[0])
+    for u in uns:
+        if u in PENDING_DECISION: continue
+        key = PENDING_UNSTREAMED_OPTIMIZERS.get(u, "roundtrip:%s:state-not-streamed" % u)
+        rp = {"key": key, "class": u, "detail": "optimizer %s has data members but neither it nor a base below ISerializable defines read()/write(): the archive of such an object is empty" % u}
+        if u in PENDING_UNSTREAMED_OPTIMIZERS and ck.match_known(key) is None:
+            print("FINDING-CANDIDATE property=%s key=%s (no harness case: %s) %s" % (PID, key, "see PENDING_UNSTREAMED_OPTIMIZERS", rp["detail"]), flush=True)
+            cand.append({"key": key, "class": u, "failing": 0, "of": 0, "example": rp["detail"]})
+        else:
+            ck.violation(key, rp, rp["detail"], no_input=(ck.match_known(key) is None))
+    ck.notes["finding_candidates_pending_decision"] = cand
+    ck.notes["optimizers_without_read_write"] = uns
     reported = set()
     def covered_by(hcls):
         base = re.sub(r"<.*$", "", hcls)
